@@ -47,7 +47,11 @@ def run(ctx):
         if daq:
             scenario = "channel"
         k = rnd.randint(1, 2) if daq else 0
-        props_x, graph_x = gs.draw_graph(rnd, first_scales_daqmx=k, with_noop=rnd.random() < 0.2)
+        if i % 9 == 4 and not daq:
+            # long chains: 9-14 scales, without NI_Number_Of_Scales (the count comes from the highest NI_Scale[i] index)
+            props_x, graph_x = gs.draw_graph(rnd, n=rnd.randint(9, 14), types=["Linear", "Add", "Subtract"], with_noop=True, with_number=rnd.random() < 0.3)
+        else:
+            props_x, graph_x = gs.draw_graph(rnd, first_scales_daqmx=k, with_noop=rnd.random() < 0.2)
         props_y, graph_y = gs.draw_graph(rnd, with_noop=False)
         cp, gp, rp = [], [], []
         effective = graph_x
@@ -168,7 +172,7 @@ def run(ctx):
                               rule="scale graphs of 1-5 structural scales (Linear, Polynomial, Table incl. decreasing tables, Add, Subtract, sometimes AdvancedAPI) with "
                                    "arbitrary well-founded input wiring, dyadic coefficients, with/without NI_Number_Of_Scales, every numeric raw type, data split over "
                                    "segments, both byte orders; properties on channel / group / root, channel over group, NI_Scaling_Status='scaled' with and without another "
-                                   "scaling in scope; every seventh case a DAQmx channel whose first scales are raw scalers; non-trivial = distinct files whose effective graph "
+                                   "scaling in scope; every ninth case a chain of 9-14 scales mostly without NI_Number_Of_Scales; every seventh case a DAQmx channel whose first scales are raw scalers; non-trivial = distinct files whose effective graph "
                                    "has at least two scales",
                               samples=samples or [dict(note="none")], counts=stats))
 
